@@ -25,6 +25,14 @@ CHECKS = {
          "TLC proves exhaustively (window 3, up to 2-3 messages of 1 or 3 segments per end, every order of send / poll / deliver / fetch / ack-timer steps of the two ends) that the two BTP ends transcribed from btp.rs and btp/session.rs refine Layer P (exactly-once in-order delivery, window never exceeded, never a panic) ; TLC-simulated step schedules - well-behaved, or ending in a hostile segment of one of 15 classes - plus harness-made long runs across the 8-bit sequence wrap and window-overrun runs are replayed on two real Btp objects, and TLC validates the recorded wire/app traces against Layer P (including: protocol-violating segments are refused with an error, acknowledgements go out before the deadline, no corrupted delivery after an accepted hostile segment).",
          "Trusted: TLC; GATT modelled as ordered lossless byte channels; window 3 / payload MTU 20 (other sizes only in the thorough tier's harness runs). Byte-level segment fidelity is checked by comparing the fetched bytes with the submitted ones.",
          "TLA+ refinement check (TLC) + TLC-generated schedules replayed on the real code + TLC trace validation", "DESIGN.md section 4 C18"),
+ "C05": ("model_checking",
+         "The Matter access-control decision is written as a TLA+ operator (Acl.tla: Allow, Reach) from the property text; TLC draws tens of thousands (quick) to hundreds of thousands (thorough) of configurations - fabrics 1/2 present or not with 0-2 entries each (5 privileges x 2 auth modes x null / empty / node / CAT-with-version / group subject lists x null / empty / endpoint / cluster / device-type target lists), group tables, accessors of every mode with fabric index 0..3 (0 and a non-existent one included), read / write requests on elements with 7 access declarations - evaluates the reference and two sanity invariants on each, and the harness evaluates the real AccessReq::allow / Accessor::is_endpoint_accessible on a real Matter built with the same configuration. The property is an iff, so any disagreement is a violation.",
+         "Trusted: the reference operator as the reading of the specification (sanity-checked by TLC invariants FabricSeparation / NoFabricNoAccess). The provisional AUXILIARY feature is off. Sampling, not exhaustive, over the stated universe.",
+         "TLA+ reference operator evaluated by TLC on TLC-drawn configurations vs the real decision function", "DESIGN.md section 4 C05"),
+ "C19": ("model_checking",
+         "The chain-validity rules are a TLA+ predicate over abstract certificates (CertChain.tla: Valid), written from the property text. TLC enumerates exhaustively ~1900 cases: 2- and 3-certificate chains x 35 single-respect mutations (each signature, each name link, key identifiers, each date, CA flags, key usages, extended key usages, path lengths, critical extension, missing / foreign node and fabric ids, RCAC in the ICAC slot, untrusted root, swapped / repeated / leaf-as-authority, key not the CSR key, fabric already present) x a second independent mutation from a short list x reliable / last-known-good clock x purpose (bare verification, CASE against a fabric, AddNOC). For each, the harness builds the concrete Matter-TLV certificates with real P-256 keys, signs them over the implementation's own X.509 rendering, and compares the real verdict (CertVerifier, CASE chain validation, FailSafe::add_noc) with the reference. Iff: any disagreement or panic is a violation.",
+         "Trusted: the reference predicate; ECDSA / P-256; the harness' certificate writer (its unmutated chains are accepted by the real verifier, which checks the writer). UpdateNOC rules are covered by C08.",
+         "TLA+ reference predicate enumerated by TLC vs the real verifier on concrete certificates", "DESIGN.md section 4 C19"),
 }
 
 NOT_YET = "check not built yet in this tree (see DESIGN.md section 7 for the build order); not claimed"
